@@ -422,6 +422,42 @@ CLAIMED["C04"] = dict(
 
 PENDING_REASON = "not claimed yet: the Lean model / engine for this property is still under construction (see DESIGN.md section 8); no check is registered rather than registering one that is not sound"
 
+CLAIMED["C06"] = dict(
+    engine="tb", design_ref="6.6",
+    technique="Lean 4: executable model of html5ever's tree builder (every insertion mode, adoption agency, foster "
+              "parenting, foreign content, fragments; every TreeSink call as a Dom operation) composed with the tokenizer "
+              "model; Skeleton as a decidable predicate on the abstract DOM; universally quantified lemmas (whitespace "
+              "splitter, empty-token dropping, adjacency across non-detaching sink calls on top of C20, EOF closure from "
+              "the initial mode for all options) + kernel-evaluated finite instances; model/code correspondence on an "
+              "exhaustive single-step cover; the Skeleton oracle on the real RcDom tree of every document case",
+    text="PARTIAL. Proved for all inputs: the whitespace splitter of process_to_completion never yields an empty piece and "
+         "loses nothing; an empty character token (also one emptied by ignore_lf) makes no tree-changing sink call; every "
+         "text insertion the builder can make is a non-detaching call and every contract-abiding sequence of non-detaching "
+         "calls keeps 'no two adjacent text siblings' (on C20's sink theorems); for every option set EOF in the initial "
+         "mode synthesises html/head/body, satisfies Skeleton and does not panic. NOT proved: Skeleton for all documents "
+         "(the DOM-shape invariant indexed by insertion mode, and that remove_from_parent / reparent_children in the "
+         "adoption agency and frameset-replaces-body never expose two text siblings). That part is carried by (a) the "
+         "oracle: Skeleton (document children comment* doctype? comment* html comment*; html's element children head then "
+         "body | frameset noframes*; no empty text; no text under the document; only whitespace text under html; only "
+         "elements/documents/template contents have children; no adjacent text siblings; parent pointers consistent; "
+         "exactly one EOF token, last) evaluated on the real tree of every document case under one-piece, random and "
+         "all-singleton chunkings and both scripting settings, and (b) the tb correspondence tying the model to the code: "
+         "every TreeSink call including elem_name/same_node queries at token level (insertion mode x stack shape x every "
+         "tag name x start/end/self-closing x attribute shapes, character runs, comments, doctypes, EOF; pair cover; "
+         "foreign tables; fragments for all context elements; adoption/Noah/foster families; random token runs) and every "
+         "tree mutation + final DOM + quirks mode + process_token answers at text level. FINDING (proved as "
+         "C06_witness_frameset_reconstruct, confirmed on the real code, same in the standard's algorithm): "
+         "`<b><frameset></frameset></html> ` yields html > head, frameset, b — a formatting element left in the active "
+         "formatting list when <frameset> replaces body is reconstructed under html by the whitespace after </html>; the "
+         "check reports it (known-finding id C06-frameset-reconstruct once recorded). No other violating document was "
+         "found (thorough tier: 1.47 M non-trivial document parses).",
+    note="Trusted: Lean kernel; the hand-written model lean/H5V/Model/HtmlTB/*.lean + the tb correspondence (differential; "
+         "families and counts in evidence); Dom as the model of RcDom (C20); the tokenizer model HtmlTok (C01/C03); the Python "
+         "Skeleton predicate. `noframes*` rather than `noframes?` (the standard's own algorithm yields several). Finite "
+         "instances (EOF closure from a canonical state of each of the 21 modes) are kernel evaluations of the model, not "
+         "theorems about all states.")
+
+
 def main():
     props = [json.loads(l) for l in open(os.path.join(ROOT, "properties.jsonl"))]
     checks = []
